@@ -74,6 +74,8 @@ type c20Opts struct {
 	CommaName bool   // the product is named with a comma and passed to `run -p` as a path of its own
 	NoLinkDir bool   // `verify` is called without -d from the directory that holds the links (the layout lies elsewhere)
 	OddNames  bool   // step names and the metadata directory contain characters of file-name patterns
+	DotPaths  bool   // artifacts are passed as single files spelled ./proj/<file> and the strip prefix as ./proj/
+	Rewrite   bool   // every step's command also rewrites proj/version.txt in place: other content, same size, modification time restored
 	Resign    bool   // the layout file is first signed as an earlier revision, then revised in place (stale signatures stay) and signed again with the same keys
 }
 
@@ -177,6 +179,8 @@ func runC20(c *core.Ctx) {
 		o.CommaName = !o.RunDirOpt && r.Intn(4) == 0
 		o.NoLinkDir = r.Intn(4) == 0
 		o.OddNames = r.Intn(4) == 0
+		o.DotPaths = o.Strip && !o.RunDirOpt && !o.CommaName && r.Intn(3) == 0
+		o.Rewrite = !o.CommaName && !o.DotPaths && r.Intn(3) == 0
 		metaName := "meta"
 		if o.OddNames {
 			metaName = "meta[1]"
@@ -203,6 +207,10 @@ func runC20(c *core.Ctx) {
 		}
 		mkdirs(w.work, w.meta, w.final, w.keys, filepath.Join(w.work, "proj"))
 		cl := &cli{bin: bin}
+		version := "version 0 of the project\n"
+		if o.Rewrite {
+			os.WriteFile(filepath.Join(w.work, "proj", "version.txt"), []byte(version), 0644)
+		}
 		// ---- keys -----------------------------------------------------------------
 		writeKey := func(name string, kp gen.KeyPair) (string, string) {
 			priv, pub := filepath.Join(w.keys, name), filepath.Join(w.keys, name+".pub")
@@ -266,7 +274,23 @@ func runC20(c *core.Ctx) {
 				ops = append(ops, "create", "proj/scratch.tmp", "tmp", "--")
 			}
 			if s > 0 {
-				ops = append(ops, "delete", "proj/"+outFile(stepNames[s-1]))
+				ops = append(ops, "delete", "proj/"+outFile(stepNames[s-1]), "--")
+			}
+			if o.Rewrite {
+				ops = append(ops, "samesize", "proj/version.txt", "--")
+				version = sameSizeRewrite(version)
+			}
+			// how the functionary names the artifacts on the command line
+			mPaths, pPaths, stripArg := []string{"-m", "proj"}, []string{"-p", "proj"}, "proj/"
+			if o.CommaName {
+				// the product is passed as a path of its own (a comma in a path is an ordinary character)
+				pPaths = []string{"-p", newFile}
+			}
+			if o.DotPaths {
+				mPaths, pPaths, stripArg = nil, []string{"-p", "./" + newFile}, "./proj/"
+				if s > 0 {
+					mPaths = []string{"-m", "./proj/" + outFile(stepNames[s-1])}
+				}
 			}
 			common := []string{"-n", name, "-k", fnPriv[s]}
 			if s == 0 && o.Cert {
@@ -276,7 +300,7 @@ func runC20(c *core.Ctx) {
 				common = append(common, "-d", metaName)
 			}
 			if o.Strip {
-				common = append(common, "-l", "proj/")
+				common = append(common, "-l", stripArg)
 			}
 			if o.Exclude {
 				common = append(common, "-e", "*.tmp")
@@ -297,28 +321,23 @@ func runC20(c *core.Ctx) {
 			var inv invocation
 			switch {
 			case record:
-				inv = cl.run(w.work, append(append([]string{"record", "start"}, common...), "-m", "proj")...)
+				inv = cl.run(w.work, append(append([]string{"record", "start"}, common...), mPaths...)...)
 				if inv.Exit == 0 {
 					// the functionary works by hand between start and stop
 					exec.Command(ops[0], append(ops[1:], "--")...).Run()
 					hc := exec.Command(ops[0], ops[1:]...)
 					hc.Dir = w.work
 					hc.Run()
-					inv = cl.run(w.work, append(append([]string{"record", "stop"}, common...), "-p", "proj")...)
+					inv = cl.run(w.work, append(append([]string{"record", "stop"}, common...), pPaths...)...)
 				}
 			case noCmd:
 				hc := exec.Command(ops[0], ops[1:]...)
 				hc.Dir = w.work
 				hc.Run()
-				inv = cl.run(w.work, append(append([]string{"run"}, common...), "-m", "proj", "-p", "proj", "-x")...)
+				inv = cl.run(w.work, append(append(append([]string{"run"}, common...), mPaths...), append(pPaths, "-x")...)...)
 			default:
 				args := append([]string{"run"}, common...)
-				if o.CommaName {
-					// the product is passed as a path of its own (a comma in a path is an ordinary character)
-					args = append(args, "-m", "proj", "-p", newFile)
-				} else {
-					args = append(args, "-m", "proj", "-p", "proj")
-				}
+				args = append(append(args, mPaths...), pPaths...)
 				cmdOps := ops
 				if o.RunDirOpt {
 					// the command runs inside proj/: paths are relative to it
@@ -352,6 +371,10 @@ func runC20(c *core.Ctx) {
 				}
 			}
 			lastProducts = map[string]string{newFile: content}
+		}
+		extraFinal := map[string]string{}
+		if o.Rewrite {
+			extraFinal["proj/version.txt"] = version
 		}
 		detail := map[string]any{"options": json.RawMessage(o.String())}
 		if fail != "" {
@@ -428,6 +451,14 @@ func runC20(c *core.Ctx) {
 			continue
 		}
 		// the final product directory: the last step's products under the names the links use
+		for name, content := range extraFinal {
+			n := strings.TrimPrefix(name, "proj/")
+			if !o.Strip {
+				n = name
+			}
+			os.MkdirAll(filepath.Dir(filepath.Join(w.final, n)), 0755)
+			os.WriteFile(filepath.Join(w.final, n), []byte(content), 0644)
+		}
 		for name, content := range lastProducts {
 			n := strings.TrimPrefix(name, "proj/")
 			if !o.Strip {
@@ -653,6 +684,19 @@ func runC20(c *core.Ctx) {
 	c.Obs("tampered_chains_rejected", tamperOK)
 }
 
+// sameSizeRewrite is what `vhelper fsop samesize` makes of a file's content.
+func sameSizeRewrite(s string) string {
+	b := []byte(s)
+	for i := range b {
+		if b[i] == 'x' {
+			b[i] = 'y'
+		} else if b[i] != '\n' && b[i] != '\r' {
+			b[i] = 'x'
+		}
+	}
+	return string(b)
+}
+
 func c20MatchProducts(c *core.Ctx, id string, cl *cli, w *c20World, o c20Opts, fn []gen.KeyPair, last string, lastProducts map[string]string) {
 	link := filepath.Join(w.meta, gen.LinkName(last, fn[o.Steps-1].Pub.KeyID))
 	args := []string{"match-products", "-l", link, "-p", "proj"}
@@ -724,7 +768,7 @@ func init() {
 	core.Register(&core.Property{
 		ID:    "C20",
 		Level: "exploration",
-		Rule: "seeded supply chains of 1-3 steps carried out ONLY through the built `in-toto` binary: per step `run` or `record start` / (changes by hand) / `record stop`, options drawn from {`verify` without -d from the directory that holds the links, certificate chain over two intermediates passed as two -i files, product named with a comma and passed to `run -p` by its own path, step names and metadata directory with brackets, product names with non-ASCII characters, layout file signed as an earlier revision / revised in place / signed again with the same keys, --use-dsse, -c certificate with the CA in the layout (the certificate issued directly or by an intermediate CA that only `verify -i` supplies), -l strip prefix, -d metadata directory, --run-dir, -x, -e exclude}, step commands that are quiet / print several lines / write to stderr only; in a third of the chains the last step is carried out twice (a noisy first attempt, then the real one, both writing the same link path); layout written by the harness and signed with `in-toto sign` by 1-2 keys; link names checked against the verifier's naming; then `verify` on the honest chain and after each of 15 single tamperings (product byte, extra file, link content, link signature, link missing, link renamed, layout content - verified with all, only the first and only the last signer key -, layout signed by an outsider, wrong -k, extra -k of a non-signer, an unloadable / missing key file listed before a good one, expired layout), each time compared with library verification of a byte-identical copy; `sign --verify` with signer / outsider keys, `key id` on a key and on a non-key, `match-products` on untouched and locally changed products compared with InTotoMatchProducts. " +
+		Rule: "seeded supply chains of 1-3 steps carried out ONLY through the built `in-toto` binary: per step `run` or `record start` / (changes by hand) / `record stop`, options drawn from {`verify` without -d from the directory that holds the links, certificate chain over two intermediates passed as two -i files, product named with a comma and passed to `run -p` by its own path, artifacts passed as single files spelled ./proj/<file> with the strip prefix spelled ./proj/, a file that every step's command rewrites in place (other content, same size, modification time restored) and that is material and product of each step, step names and metadata directory with brackets, product names with non-ASCII characters, layout file signed as an earlier revision / revised in place / signed again with the same keys, --use-dsse, -c certificate with the CA in the layout (the certificate issued directly or by an intermediate CA that only `verify -i` supplies), -l strip prefix, -d metadata directory, --run-dir, -x, -e exclude}, step commands that are quiet / print several lines / write to stderr only; in a third of the chains the last step is carried out twice (a noisy first attempt, then the real one, both writing the same link path); layout written by the harness and signed with `in-toto sign` by 1-2 keys; link names checked against the verifier's naming; then `verify` on the honest chain and after each of 15 single tamperings (product byte, extra file, link content, link signature, link missing, link renamed, layout content - verified with all, only the first and only the last signer key -, layout signed by an outsider, wrong -k, extra -k of a non-signer, an unloadable / missing key file listed before a good one, expired layout), each time compared with library verification of a byte-identical copy; `sign --verify` with signer / outsider keys, `key id` on a key and on a non-key, `match-products` on untouched and locally changed products compared with InTotoMatchProducts. " +
 			"non-trivial = the chain reached `verify`; distinct = (option set, tampering)",
 		Assumptions: []string{"the inspection of the generated layout runs in the directory `verify` is started in (a separate final-product directory)", "open known finding F6 also shows here: --use-dsse together with -c"},
 		Workers:     func(string) int { return 16 },
